@@ -71,6 +71,27 @@ def site(c):
     return "%s" % c.sp
 
 
+def insert_wrappers(facts):
+    """Store methods that hand their own `&Frame` parameter on to Store::insert_frame (e.g. a `Store::import_frame(&self, &Frame)`
+    that looks at what is stored first): for the who-may-insert and keep-ephemeral-out rules the obligation lies with THEIR
+    callers, exactly as for insert_frame itself."""
+    out = []
+    for b in facts.all_bodies():
+        if not b.def_.startswith("xs::store::Store::") or b.kind != "AssocFn" or b.def_ in (INSERT_FRAME, APPEND) or "::tests::" in b.def_:
+            continue
+        cs = [c for c in b.calls() if c.fn == INSERT_FRAME and c.bb in b.live_blocks()]
+        if not cs:
+            continue
+        ok = True
+        for c in cs:
+            rl = q.root_local(b, c.args[1]) if len(c.args) > 1 else None
+            if rl is None or not (1 <= rl <= b.argc) or b.local_tystr(rl).startswith("&mut"):
+                ok = False
+        if ok:
+            out.append(b.def_)
+    return tuple(out)
+
+
 def removers(facts):
     """Store::remove and every other function of xs::store that fills a batch with removals (a private `remove_frame(&Frame)`
     that Store::remove and the GC share): the functions whose call takes a frame out of the store."""
